@@ -144,6 +144,12 @@ impl MinidumpWriter {
     pub fn dump(&mut self, destination: &mut (impl Write + Seek)) -> Result<Vec<u8>> {
         #[cfg(mdw_verif)]
         crate::verif_hooks::emit("dump:begin", &[("pid", self.process_id as i64)], None);
+        // A writer can be used for several dumps: nothing gathered while writing an earlier
+        // one may leak into this one.
+        self.memory_blocks.clear();
+        self.principal_mapping = None;
+        self.crashing_thread_context = CrashingThreadContext::None;
+
         let auxv = self
             .direct_auxv_dump_info
             .clone()
